@@ -351,6 +351,9 @@ class _Builder:
     def build_Add(self, o):
         return operator.add
 
+    def build_Sub(self, o):
+        return operator.sub
+
     def build_Mult(self, o):
         return operator.mul
 
